@@ -29,7 +29,7 @@ func parseJSON(b []byte) interface{} {
 }
 
 func checkC08(c *hx.Ctx) {
-	c.Rule("client-built create/update/recover requests and models over all key types and both hash algorithms: (1) 6 re-serializations each (member order, whitespace, \\u escapes, number spellings) must parse to the same suffix / pass the same hash checks / resolve identically; (2) commitment(key)==hash(decoded reveal(key)) via the library vs ref; (3) IsValidModelMultihash accepted exactly when the multihash is H_alg(JCS(model)) for the algorithm it names (right hash, other algorithm, truncated digest, wrong length prefix, unknown code, hash of non-canonical bytes, bit flips); (4) unanchored long-form DIDs: valid one resolves, every single-character substitution (3 substitutes per position) / insertion / deletion of the encoded segment, non-canonical re-encodings every single-member alteration of suffix data and delta, and every alteration of the suffix segment (also through a handler configured with label, domain and alias) must be rejected; (5) an anchored create whose well-formed delta was substituted resolves to an empty document without update commitment and the substituted key cannot update it, and an anchored operation whose reveal value is not the hash of the key in its signed data has no effect; (6) the intake parser and the reader of anchored batch files name the same DID (both algorithm orders, suffix data with and without type); (7) creates posted one after the other through the REST handler: what the writer and the unpublished store keep is still the posted request with its suffix after later requests were served; non-trivial = alteration or re-serialization that differs bytewise from the original; distinct = distinct altered inputs")
+	c.Rule("client-built create/update/recover requests and models over all key types and both hash algorithms: (1) 6 re-serializations each (member order, whitespace, \\u escapes, number spellings) must parse to the same suffix / pass the same hash checks / resolve identically; (2) commitment(key)==hash(decoded reveal(key)) via the library vs ref, every key also in a copy carrying the optional JWK nonce; (3) IsValidModelMultihash accepted exactly when the multihash is H_alg(JCS(model)) for the algorithm it names (right hash, other algorithm, truncated digest, wrong length prefix, unknown code, hash of non-canonical bytes, bit flips); (4) unanchored long-form DIDs: valid one resolves, every single-character substitution (3 substitutes per position) / insertion / deletion of the encoded segment, non-canonical re-encodings every single-member alteration of suffix data and delta, and every alteration of the suffix segment (also through a handler configured with label, domain and alias) must be rejected; (5) an anchored create whose well-formed delta was substituted resolves to an empty document without update commitment and the substituted key cannot update it, and an anchored operation whose reveal value is not the hash of the key in its signed data has no effect; (6) the intake parser and the reader of anchored batch files name the same DID (both algorithm orders, suffix data with and without type); (7) creates posted one after the other through the REST handler: what the writer and the unpublished store keep is still the posted request with its suffix after later requests were served; non-trivial = alteration or re-serialization that differs bytewise from the original; distinct = distinct altered inputs")
 	nCases := c.N(400, 4000)
 	root := c.Rng("cases")
 	seeds := make([]uint64, nCases)
@@ -489,6 +489,7 @@ func checkC08(c *hx.Ctx) {
 	})
 	c08ThroughREST(c)
 	c.Floor("rest_runs_with_several_creates", 10)
+	c.Floor("commitment_relations_key_with_nonce", 100)
 	c.Floor("suffix_agreement_between_parser_and_batch_reader", 20)
 	c.Floor("suffix_agreement_with_suffix_data_type", 10)
 	c.Floor("anchored_create_with_substituted_delta", 20)
